@@ -31,7 +31,7 @@ TCompute == /\ IsEvent("Compute") /\ Ev.r \in seen
             /\ rq[Ev.r].st = "fetch" /\ tv[rq[Ev.r].e] = Ev.v
             /\ Fetch(Ev.r) /\ UNCHANGED seen
 TDeliver == IsEvent("Deliver") /\ Deliver(Ev.r) /\ UNCHANGED seen
-\* the returned answer is bound to the spec's in ActOK (named failures)
+\* the returned answer is bound to the spec's in Mark (named failures)
 TRet == IsEvent("Ret") /\ ~Has(Ev, "err") /\ Return(Ev.r) /\ seen' = seen \ {Ev.r}
 TReorg == IsEvent("Reorg") /\ Reorg(Ev.e0) /\ UNCHANGED seen
 TInvCall == IsEvent("InvCall") /\ InvCall(Ev.e0) /\ UNCHANGED seen
@@ -47,16 +47,19 @@ TraceNext == TReset \/ TCall \/ TFetchCall \/ TCompute \/ TDeliver \/ TRet \/ TR
              \/ TTrimCall \/ TTrimRet \/ TMutate \/ TSilent
 TraceSpec == TraceInit /\ [][TraceNext]_tvars
 
-Mark == /\ CheckInv("AnswerEqualsBN", AnswerEqualsBN)
-        /\ CheckInv("FreshAfterInvalidate", FreshAfterInvalidate)
+\* the properties of the answers are evaluated where an answer appears: in the states whose latest consumed event
+\* is a Ret (`last` is then the spec's answer for that very return)
+Prev == Trace[l - 1]
+JustRet == l > 1 /\ Prev.ev = "Ret"
+LoggedDuties == {[x |-> d.x, j |-> d.j, v |-> d.v] : d \in SeqToSet(Prev.ans)}
+Mark == /\ JustRet => /\ CheckInv("PrivateCopies", Prev.mv # -1 /\ \A d \in LoggedDuties : d.v # -1)
+                       /\ CheckInv("AnswerAsSpec", /\ LoggedDuties = last.duties
+                                                   /\ Len(Prev.ans) = Cardinality(last.duties)
+                                                   /\ Prev.mv = last.mv)
+                       /\ CheckInv("AnswerEqualsBN", AnswerEqualsBN)
+                       /\ CheckInv("FreshAfterInvalidate", FreshAfterInvalidate)
         /\ CheckInv("FetchExactlyMissing", FetchExactlyMissing)
         /\ CheckInv("TypeOK", TypeOK)
         /\ HWMark
-LoggedDuties == {[x |-> d.x, j |-> d.j, v |-> d.v] : d \in SeqToSet(Ev.ans)}
-IsRet == l' = l + 1 /\ Ev.ev = "Ret"
-ActOK == /\ IsRet => /\ CheckInv("PrivateCopies", Ev.mv # -1 /\ \A d \in LoggedDuties : d.v # -1)
-                     /\ CheckInv("AnswerAsSpec", /\ LoggedDuties = last'.duties
-                                                 /\ Len(Ev.ans) = Cardinality(last'.duties)
-                                                 /\ Ev.mv = last'.mv)
-         /\ CheckInv("DropsAffected", DropsAffected)
+ActOK == CheckInv("DropsAffected", DropsAffected)
 ====
